@@ -104,10 +104,8 @@ Proof.
 Qed.
 
 (* ================================================================ files of well-formed blocks *)
-(* inside read_graphs: at least one '#' line, no comment lines between edges, and (for a zero-vertex block,
-   whose remaining lines are never looked at) the remaining lines must not start a new block *)
-Definition wf_fblock (b : bdesc) : Prop :=
-  wf_block false b /\ b_items b <> [] /\ Forall (fun l => is_hdr l = false) (map render_bitem (b_body b)).
+(* inside read_graphs: at least one '#' line and no comment lines after the count (a '#' line starts a new block) *)
+Definition wf_fblock (b : bdesc) : Prop := wf_block false b /\ b_items b <> [].
 
 Lemma render_hitem_hdr it : wf_hitem it -> is_hdr (render_hitem it) = true.
 Proof. destruct it; cbn [wf_hitem render_hitem]; intros (Hl & _); apply is_hdr_lead_hash; assumption. Qed.
@@ -134,10 +132,15 @@ Proof.
     + constructor; assumption.
   - destruct blanks; discriminate.
 Qed.
+Lemma wf_block_body_not_hdr b : wf_block false b -> Forall (fun l => is_hdr l = false) (map render_bitem (b_body b)).
+Proof.
+  intros (_ & _ & [(_ & _ & Hsk)|(_ & Hbody & _)]); [|apply wf_body_not_hdr; assumption].
+  eapply Forall_impl; [|exact Hsk]. intros l [Hl|[Hl _]]; [apply is_hdr_blank; assumption|discriminate].
+Qed.
 Lemma shaped_render b : wf_fblock b -> shaped (render_block b).
 Proof.
-  intros (((Hi & Hb & Hl & Ht & Hc) & _) & Hne & Hbody). unfold render_block.
-  apply shaped_block; try assumption. apply count_line_not_hdr; assumption.
+  intros (Hw & Hne). pose proof (wf_block_body_not_hdr b Hw) as Hbody. destruct Hw as ((Hi & Hb & Hl & Ht & Hc) & _).
+  unfold render_block. apply shaped_block; try assumption. apply count_line_not_hdr; assumption.
 Qed.
 
 Lemma seq_blocks_ok bs : Forall wf_fblock bs -> seq_blocks (map render_block bs) = Ok (map denote bs).
@@ -347,29 +350,6 @@ Proof.
   rewrite <- (app_nil_r (c :: r)) at 1. rewrite span_digits_all by (try assumption; exact I). reflexivity.
 Qed.
 
-(* ================================================================ the n == 0 early return skips every validation *)
-Definition l_S_a_b : str := [35; 83; 32; 97; 32; 98; 10].    (* "#S a b\n" *)
-Definition l_g : str := [35; 32; 103; 10].                    (* "# g\n" *)
-Definition l_0 : str := [48; 10].                             (* "0\n" *)
-Definition l_a_b : str := [97; 32; 98; 10].                   (* "a b\n"  (malformed edge line) *)
-Definition l_a_b_x : str := [97; 32; 98; 32; 120; 10].        (* "a b x\n" (non-numeric weight) *)
-
-Theorem zero_count_skips_validation :
-  (exists lines g c p, read_graphs lines = FRes (Ok [g]) /\ In c (gcons g) /\ In p c /\ ginf g = None) /\
-  (exists lines l g, In l lines /\ bad_edge_line l /\ read_graphs lines = FRes (Ok [g])) /\
-  (exists lines l g, In l lines /\ bad_weight_line l /\ read_graphs lines = FRes (Ok [g])).
-Proof.
-  split; [|split].
-  - exists [l_S_a_b; l_0]. eexists. eexists. eexists. split; [vm_compute; reflexivity|]. cbn [gcons ginf].
-    split; [left; reflexivity|]. split; [left; reflexivity|reflexivity].
-  - exists [l_g; l_0; l_a_b], l_a_b. eexists. split; [right; right; left; reflexivity|]. split; [|vm_compute; reflexivity].
-    split; [reflexivity|]. split; [reflexivity|]. vm_compute. discriminate.
-  - exists [l_g; l_0; l_a_b_x], l_a_b_x. eexists. split; [right; right; left; reflexivity|]. split; [|vm_compute; reflexivity].
-    exists [], [97], [32], [98], [32], [120], [10]. split; [reflexivity|]. split; [constructor|].
-    split; [|split; [cbn; discriminate|reflexivity]].
-    cbn [wf_cells]. repeat split; try discriminate; repeat constructor.
-Qed.
-
 (* ================================================================ the named corruptions inside a multi-block file *)
 Lemma count_text_of_int t z : parse_int t = IOk z -> count_text t.
 Proof. intros H. destruct (parse_int_ok_text t z H) as [Ht Hn]. split; [apply Ht|]. split; [apply token_trimmed; assumption|assumption]. Qed.
@@ -427,4 +407,53 @@ Proof.
   apply corrupt_block_rejected; try assumption.
   - unfold render_block. apply shaped_block; try assumption; [apply count_line_not_hdr; assumption|apply wf_body_not_hdr; assumption].
   - apply (missing_constraint_edge_rejected false); assumption.
+Qed.
+
+(* ================================================================ whatever the count (zero-vertex blocks are validated since fc0735f) *)
+Theorem corrupt_line_in_file_any_count pre good b body_pre l post rest :
+  Forall (fun x => is_hdr x = false) pre -> Forall wf_fblock good ->
+  wf_head b -> b_items b <> [] -> parse_int (b_ctok b) = IOk (b_n b) ->
+  Forall (wf_bitem false) body_pre -> bad_edge_line l \/ bad_weight_line l ->
+  Forall (fun x => is_hdr x = false) post -> hdr_or_nil rest ->
+  exists e, read_graphs (pre ++ concat (map render_block good) ++
+               (map render_hitem (b_items b) ++ b_blanks b ++ count_line b :: (map render_bitem body_pre ++ l :: post)) ++ rest)
+            = FRes (Error e).
+Proof.
+  intros Hp Hg Hh Hne Hpi Hbp Hbad Hpost Hr. pose proof Hh as (Hi & Hb & Hl & Ht & Hc).
+  destruct (bad_line_rejected_any_count false b body_pre l post Hh Hpi Hbp Hbad) as (e & He).
+  exists e. apply corrupt_block_rejected; try assumption.
+  apply shaped_block; try assumption; [apply count_line_not_hdr; assumption|].
+  apply Forall_app. split; [apply wf_body_not_hdr; assumption|]. constructor; [|assumption].
+  destruct Hbad as [(_ & H & _)|H]; [exact H|apply bad_weight_line_not_hdr; exact H].
+Qed.
+
+Theorem missing_constraint_edge_in_file_any_count pre good b rest :
+  Forall (fun x => is_hdr x = false) pre -> Forall wf_fblock good ->
+  wf_head b -> b_items b <> [] -> parse_int (b_ctok b) = IOk (b_n b) ->
+  (b_n b <> 0%Z -> Forall (wf_bitem false) (b_body b)) ->
+  Forall (fun x => is_hdr x = false) (map render_bitem (b_body b)) ->
+  (exists c p, In c (spec_cons (b_items b)) /\ In p c /\ ~ In p (map fst (listed (b_body b)))) ->
+  hdr_or_nil rest ->
+  exists e, read_graphs (pre ++ concat (map render_block good) ++ render_block b ++ rest) = FRes (Error e).
+Proof.
+  intros Hp Hg Hh Hne Hpi Hbody Hnh Hmiss Hr. pose proof Hh as (Hi & Hb & Hl & Ht & Hc).
+  destruct (missing_constraint_edge_rejected_any_count false b Hh Hpi Hbody Hmiss) as (e & He).
+  exists e. apply corrupt_block_rejected; try assumption.
+  unfold render_block. apply shaped_block; try assumption. apply count_line_not_hdr; assumption.
+Qed.
+
+(* a zero-vertex block with a constraint or with any non-blank line after the count, anywhere in a file *)
+Theorem zero_block_in_file pre good b body rest :
+  Forall (fun x => is_hdr x = false) pre -> Forall wf_fblock good ->
+  wf_head b -> b_items b <> [] -> parse_int (b_ctok b) = IOk 0%Z ->
+  Forall (fun x => is_hdr x = false) body ->
+  spec_cons (b_items b) <> [] \/ (exists l, In l body /\ unskipped l) ->
+  hdr_or_nil rest ->
+  exists e, read_graphs (pre ++ concat (map render_block good) ++ (map render_hitem (b_items b) ++ b_blanks b ++ count_line b :: body) ++ rest)
+            = FRes (Error e) /\ (e = EZeroHasConstraints \/ e = EZeroHasEdges).
+Proof.
+  intros Hp Hg Hh Hne Hpi Hnh Hbad Hr. pose proof Hh as (Hi & Hb & Hl & Ht & Hc).
+  destruct (zero_block_rejected b body Hh Hpi Hbad) as (e & He & Hk).
+  exists e. split; [|exact Hk]. apply corrupt_block_rejected; try assumption.
+  apply shaped_block; try assumption. apply count_line_not_hdr; assumption.
 Qed.
